@@ -335,6 +335,15 @@ def stateAt (log : List Entry) (v : Nat) (k : Nat) : Option Nat :=
 def Quiet (w : World) : Prop :=
   w.pauseSeen = true ∨ w.phase = .backoff ∨ w.phase = .blocked ∨ w.phase = .failed
 
+/-- What "the stream ends without an exception and the next request is a fresh listing" means, for the
+    state `w'` reached from `w`: nothing was yielded or requested, the client sleeps the reconnect backoff,
+    whatever happens afterwards the first request it sends is a list (never a `watch since`), and once the
+    backoff is over and the operator is not paused it does send it. -/
+def RelistsAfter (w w' : World) : Prop :=
+  w'.phase = .backoff ∧ w'.outs = w.outs ∧
+  (∀ as, ∃ new, (run w' as).outs = new ++ w'.outs ∧ ∀ v, oldestReq new ≠ some (.reqWatch v)) ∧
+  (w'.paused = false → (step w' .wake).phase = .listing ∧ (step w' .wake).outs = .reqList :: w'.outs)
+
 /-- A cooperative environment: un-pause, end whatever is going on, let the backoff pass, answer the
     listing and the watch request. From every state that has not failed this reaches an open,
     caught-up stream (`quiescence_reachable`). -/
